@@ -26,7 +26,18 @@ def ghost_inputs(ob):
     return vals
 
 
+_BUILT = {}
+
+
 def build_driver(pid, work):
+    if pid in _BUILT:
+        return _BUILT[pid]
+    r = _build_driver(pid, work)
+    _BUILT[pid] = r
+    return r
+
+
+def _build_driver(pid, work):
     src = os.path.join(VERIF, 'replay', pid + '.cpp')
     if not os.path.exists(src):
         return None, 'no native replay driver for ' + pid
@@ -52,7 +63,10 @@ def run_driver(exe, inputs, obligation, seed, timeout=300):
         return 1, out[-3000:] + '\nFAILING-INPUT: native run did not terminate within %ds (hang)' % timeout, ' '.join(args[:3])
 
 
-def make_replay(pid, name, ob, seed):
+_FIRST = {}
+
+
+def make_replay(pid, name, ob, seed, native=True):
     work = os.path.join(VERIF, '.work', pid)
     os.makedirs(work, exist_ok=True)
     inputs = ghost_inputs(ob)
@@ -62,14 +76,19 @@ def make_replay(pid, name, ob, seed):
         'inputs': inputs,
         'verifier_output': (ob.get('trace') or [])[-120:] if ob.get('trace') else ob.get('raw', ''),
     }
-    exe, info = build_driver(pid, work)
     found = False
-    if exe is None:
+    shared = (not native) and pid in _FIRST
+    exe, info = (None, '') if shared else build_driver(pid, work)
+    if shared:
+        rec['native'] = dict(_FIRST[pid], note='native run shared with the first refuted obligation of this check run')
+        found = bool(_FIRST[pid].get('failing_input_found'))
+    elif exe is None:
         rec['native'] = {'status': 'unavailable', 'detail': info}
     else:
         rc, out, cmd = run_driver(exe, inputs, name, seed)
         found = rc == 1 and 'FAILING-INPUT' in out
         rec['native'] = {'build': info, 'cmd': cmd, 'exit': rc, 'output': out, 'failing_input_found': found}
+        _FIRST.setdefault(pid, rec['native'])
     h = hashlib.sha1((name + json.dumps(inputs, sort_keys=True)).encode()).hexdigest()[:10]
     path = os.path.join(VERIF, 'replays', pid, '%s.json' % h)
     os.makedirs(os.path.dirname(path), exist_ok=True)
